@@ -34,6 +34,9 @@
 (***************************************************************************)
 EXTENDS Integers, Sequences, FiniteSets, TLC
 
+\* TLC evaluates a LET definition again at every use; With(x, F) evaluates x ONCE and applies F to the value
+With(x, F(_)) == CHOOSE y \in {F(v) : v \in {x}} : TRUE
+
 (* ------------------------------ characters ------------------------------ *)
 Ch(s, i) == SubSeq(s, i, i)
 UpperS == "ABCDEFGHIJKLMNOPQRSTUVWXYZ"
@@ -184,8 +187,7 @@ ParseLine(s) == [kw |-> Standardise(GetKeyword(s)), idx |-> GetIndex(s), rest |-
 
 NoErr == ""
 \* KeyParser::set_variable for entry e and parsed line p
-SetVar(st, e, p) ==
-  LET v == ReadValue(e, p.rest) IN
+SetVarV(st, e, p, v) ==
   IF v.none THEN st                                                  \* IgnoreBadValue: "if (!keyword_has_a_value) return"
   ELSE IF p.idx.big THEN [st EXCEPT !.err = "IndexNotRepresentable"]  \* an index that is no int cannot be "the index given"
   ELSE IF p.idx.n = 0 THEN                                           \* IndexZeroIsNoIndex
@@ -194,6 +196,7 @@ SetVar(st, e, p) ==
   ELSE IF e.vec = 0 THEN [st EXCEPT !.err = "UnexpectedIndex"]       \* "encountered unexpected vectorisation of key"
   ELSE IF p.idx.n < 1 \/ p.idx.n > Len(st.vars[e.var]) THEN [st EXCEPT !.err = "IndexOutOfRange"]   \* "the list ... has to be resized"
   ELSE [st EXCEPT !.vars[e.var][p.idx.n] = v.v]                      \* "vectorised keys are stored at the index given"
+SetVar(st, e, p) == With(ReadValue(e, p.rest), LAMBDA v : SetVarV(st, e, p, v))
 
 Resolve(al, kw) == IF kw \in DOMAIN al THEN al[kw] ELSE kw
 
@@ -294,49 +297,153 @@ MemoTexts == {Alpha[a] : a \in AlphaIds} \cup {StripCR(Alpha[a]) : a \in AlphaId
 ParseMemo == [t \in MemoTexts |-> ParseLine(t)]
 Parsed(t) == IF t \in DOMAIN ParseMemo THEN ParseMemo[t] ELSE ParseLine(t)
 
+(* --------------------------- key maps and states -------------------------- *)
+NewState(km, al, vars) == [status |-> "end", km |-> km, al |-> al, vars |-> vars, err |-> NoErr]
+Entry(t, vec, var, proc) == [t |-> t, vec |-> vec, var |-> var, proc |-> proc, vals |-> <<>>]
+EnumEntry(var, proc, vals) == [t |-> "enum", vec |-> 0, var |-> var, proc |-> proc, vals |-> vals]
+KM(pairs) == [k \in {Standardise(pairs[i][1]) : i \in 1..Len(pairs)} |->
+                 pairs[CHOOSE i \in 1..Len(pairs) : Standardise(pairs[i][1]) = k /\ \A j \in (i + 1)..Len(pairs) : Standardise(pairs[j][1]) # k][2]]
+
+(* -------------------- call-backs of the Interfile headers ---------------- *)
+\* (InterfileHeader.cxx; they are processing functions of keys of the Interfile key maps below)
+Resize(q, n, fill) == [i \in 1..n |-> IF i <= Len(q) THEN q[i] ELSE fill]
+MaxVector == 100000      \* a vector length beyond this is "unbounded allocation from a small input"
+\* std::vector::resize with a length taken from the header: a negative length is an exception
+\* (length_error), an enormous one must be refused as well
+ResizeErr(n) == IF n < 0 THEN "NegativeLength" ELSE IF n > MaxVector THEN "HugeLength" ELSE NoErr
+NumDatasets(v) == v.num_time_frames * v.num_image_data_types
+SmallInt(n) == n > -40000 /\ n < 40000
+AddKeys(km, pairs) == [k \in DOMAIN km \cup {Standardise(pairs[i][1]) : i \in 1..Len(pairs)} |->
+                         IF \E i \in 1..Len(pairs) : Standardise(pairs[i][1]) = k
+                         THEN pairs[CHOOSE i \in 1..Len(pairs) : Standardise(pairs[i][1]) = k /\ \A j \in (i + 1)..Len(pairs) : Standardise(pairs[j][1]) # k][2]
+                         ELSE km[k]]
+TypeOfDataValues == <<"Static", "Dynamic", "Tomographic", "Curve", "ROI", "PET", "Other">>
+PETDataTypeValues == <<"Emission", "Transmission", "Blank", "AttenuationCorrection", "Normalisation", "Image">>
+FramesResize(st) ==
+  LET v == st.vars
+      nd == IF SmallInt(v.num_time_frames) /\ SmallInt(v.num_image_data_types) THEN NumDatasets(v) ELSE MaxVector + 1
+      er == IF ResizeErr(nd) # NoErr THEN ResizeErr(nd) ELSE ResizeErr(v.num_time_frames) IN
+  IF er # NoErr THEN [st EXCEPT !.err = er]
+  ELSE [st EXCEPT !.vars.image_scaling_factors = [i \in 1..nd |-> <<"D">>],       \* every dataset gets ONE factor again
+                  !.vars.data_offset = Resize(v.data_offset, nd, [big |-> FALSE, n |-> 0])]
+\* the part of InterfilePDFSHeader::find_storage_order that sets the data shape; a missing
+\* 'matrix size' entry has no first element (reading it is an out-of-bounds access): err MissingMatrixSize
+FindStorageOrder(st) ==
+  LET v == st.vars
+      nd == v.num_dimensions
+      has(d) == d <= Len(v.matrix_size) /\ Len(v.matrix_size[d]) > 0
+      stop(s) == [s EXCEPT !.status = "end"] IN
+  IF nd # 4 /\ nd # 5 THEN stop(st)
+  ELSE IF nd = 5 /\ v.matrix_labels[5] # "timing positions" THEN stop(st)
+  ELSE IF nd = 5 /\ ~has(5) THEN [st EXCEPT !.err = "MissingMatrixSize"]
+  ELSE LET s1 == [st EXCEPT !.vars.num_timing_poss = IF nd = 5 THEN v.matrix_size[5][1] ELSE 1] IN
+       IF v.matrix_labels[1] # "tangential coordinate" THEN stop(s1)
+       ELSE IF ~has(1) THEN [s1 EXCEPT !.err = "MissingMatrixSize"]
+       ELSE LET s2 == [s1 EXCEPT !.vars.num_bins = v.matrix_size[1][1]] IN
+            IF v.matrix_labels[4] # "segment" THEN stop(s2)
+            ELSE IF ~has(4) THEN [s2 EXCEPT !.err = "MissingMatrixSize"]
+            ELSE LET s3 == [s2 EXCEPT !.vars.num_segments = v.matrix_size[4][1]] IN
+                 IF v.matrix_labels[2] = "axial coordinate" /\ v.matrix_labels[3] = "view"
+                 THEN (IF ~has(3) THEN [s3 EXCEPT !.err = "MissingMatrixSize"]
+                       ELSE [s3 EXCEPT !.vars.num_views = v.matrix_size[3][1], !.vars.num_rings_per_segment = v.matrix_size[2], !.vars.order_found = TRUE])
+                 ELSE IF v.matrix_labels[2] = "view" /\ v.matrix_labels[3] = "axial coordinate"
+                 THEN (IF ~has(2) THEN [s3 EXCEPT !.err = "MissingMatrixSize"]
+                       ELSE [s3 EXCEPT !.vars.num_views = v.matrix_size[2][1], !.vars.num_rings_per_segment = v.matrix_size[3], !.vars.order_found = TRUE])
+                 ELSE stop(s3)
+
+ApplyHook1(s1, e, p) ==
+  IF s1.err # NoErr THEN s1
+  ELSE LET v == s1.vars IN
+  CASE e.proc = "read_matrix_info" ->
+         LET n == v.num_dimensions IN
+         IF ResizeErr(n) # NoErr THEN [s1 EXCEPT !.err = ResizeErr(n)]
+         ELSE LET s2 == [s1 EXCEPT !.vars.matrix_labels = Resize(v.matrix_labels, n, ""), !.vars.matrix_size = Resize(v.matrix_size, n, <<>>),
+                                   !.vars.pixel_sizes = Resize(v.pixel_sizes, n, "D")] IN
+              IF "first_pixel_offsets" \in DOMAIN v THEN [s2 EXCEPT !.vars.first_pixel_offsets = [i \in 1..n |-> "unset"]] ELSE s2
+    [] e.proc = "read_frames_info" ->
+         LET s2 == FramesResize(s1) IN
+         IF s2.err # NoErr THEN s2
+         ELSE [s2 EXCEPT !.vars.rel_start = Resize(v.rel_start, v.num_time_frames, "D"), !.vars.durations = Resize(v.durations, v.num_time_frames, "D")]
+    [] e.proc = "read_image_data_types" ->
+         LET s2 == FramesResize(s1) IN
+         IF s2.err # NoErr THEN s2
+         ELSE IF ResizeErr(v.num_image_data_types) # NoErr THEN [s2 EXCEPT !.err = ResizeErr(v.num_image_data_types)]
+         ELSE [s2 EXCEPT !.vars.image_data_type_description = Resize(v.image_data_type_description, v.num_image_data_types, "")]
+    [] e.proc = "read_num_energy_windows" ->
+         LET n == v.num_energy_windows IN
+         IF ResizeErr(n) # NoErr THEN [s1 EXCEPT !.err = ResizeErr(n)]
+         ELSE [s1 EXCEPT !.vars.en_low = Resize(v.en_low, n, "D"), !.vars.en_up = Resize(v.en_up, n, "D")]
+    [] e.proc = "set_type_of_data" ->
+         IF v.type_of_data = -1 THEN [s1 EXCEPT !.err = "TypeOfDataUnsupported"]     \* "type_of_data needs to be set to supported value"
+         ELSE IF TypeOfDataValues[v.type_of_data + 1] = "PET"
+         THEN [s1 EXCEPT !.km = AddKeys(s1.km, << <<"PET STUDY (Emission data)", Entry("none", 0, "", "nothing")>>,
+                                                   <<"PET STUDY (Image data)", Entry("none", 0, "", "nothing")>>,
+                                                   <<"PET STUDY (General)", Entry("none", 0, "", "nothing")>>,
+                                                   <<"PET data type", EnumEntry("PET_data_type", "set", PETDataTypeValues)>>,
+                                                   <<"process status", Entry("none", 0, "", "nothing")>>,
+                                                   <<"IMAGE DATA DESCRIPTION", Entry("none", 0, "", "nothing")>>,
+                                                   <<"data offset in bytes", Entry("ulong", 1, "data_offset", "set")>> >>)]
+         ELSE [s1 EXCEPT !.vars.unmodelled = TRUE]                                    \* other kinds of data: not modelled
+    [] e.proc = "set_version_specific_keys" ->
+         IF v.version_of_keys = "STIR3.0"
+         THEN [s1 EXCEPT !.km = AddKeys(s1.km, << <<"energy window lower level", Entry("double", 0, "junk", "set")>>,
+                                                   <<"energy window upper level", Entry("double", 0, "junk", "set")>> >>)]
+         ELSE s1
+    [] e.proc = "set_imaging_modality" ->
+         IF Standardise(v.imaging_modality) \in {"nm", "nucmed", "spect"} THEN [s1 EXCEPT !.vars.unmodelled = TRUE] ELSE s1   \* SPECT reader: not modelled
+    [] e.proc = "set_siemens" -> [s1 EXCEPT !.vars.unmodelled = TRUE]                  \* Siemens reader: not modelled
+    [] e.proc = "set_unmodelled" -> [s1 EXCEPT !.vars.unmodelled = TRUE]
+    [] e.proc = "resize_segments_and_set" ->
+         \* "find_storage_order returns true if already found (or error)"
+         LET s2 == IF v.num_segments < 0 THEN FindStorageOrder(s1) ELSE s1
+             n == s2.vars.num_segments
+             s3 == IF s2.err # NoErr THEN s2
+                   ELSE IF v.num_segments < 0 /\ s2.vars.order_found
+                   THEN (IF ResizeErr(n) # NoErr THEN [s2 EXCEPT !.err = ResizeErr(n)]
+                         ELSE [s2 EXCEPT !.vars.min_ring_difference = Resize(s2.vars.min_ring_difference, n, 0),
+                                         !.vars.max_ring_difference = Resize(s2.vars.max_ring_difference, n, 0)])
+                   ELSE s2 IN
+         IF s3.err # NoErr THEN s3 ELSE IF s3.vars.num_segments >= 0 THEN SetVar(s3, e, p) ELSE s3
+    [] OTHER -> s1
+ApplyHook(st, e, p) == With(IF e.proc = "resize_segments_and_set" THEN st ELSE SetVar(st, e, p), LAMBDA s1 : ApplyHook1(s1, e, p))
+
 (* ------------------------------ the machine ------------------------------ *)
-\* call-backs of the Interfile headers (defined further down for the Interfile instances)
-ApplyHook(st, name, before) == st   \* PLACEHOLDER
 \* process_key for one logical line: map the (alias-resolved, standardised) keyword, read the value
 \* according to the entry's type, call the entry's processing function.
-\* ApplyHook(st, name, before) is the part of a call-back that follows its set_variable() call.
-Process(st, text) ==
-  LET p == Parsed(text)
-      k == Resolve(st.al, p.kw) IN
+ProcessP(st, p) ==
+  LET k == Resolve(st.al, p.kw) IN
   IF k \notin DOMAIN st.km THEN st            \* UnknownKey, Comment (';'), empty line: "do no processing of this key"
   ELSE LET e == st.km[k] IN
        CASE e.proc = "start" -> [st EXCEPT !.status = "parsing"]
          [] e.proc = "stop" -> [st EXCEPT !.status = "end"]
          [] e.proc = "nothing" -> st
          [] e.proc = "set" -> SetVar(st, e, p)
-         [] OTHER -> LET s1 == SetVar(st, e, p) IN IF s1.err # NoErr THEN s1 ELSE ApplyHook(s1, e.proc, st)
+         [] OTHER -> ApplyHook(st, e, p)       \* a call-back of a derived class (it calls set_variable itself)
+Process(st, text) == With(Parsed(text), LAMBDA p : ProcessP(st, p))
 
 \* KeyParser::parse_header.  Result: verdict "accepted" | "rejected" | "error", the final state, the
 \* named case that ended the run, `more' (TRUE iff only the end of the input stopped the parser) and
 \* contAtEof (the input ended inside a continued line).
 RECURSIVE ParseLoop(_, _, _, _, _)
-ParseLoop(st, L, nl, i, eof) ==
-  LET r == NextMeaningful(L, nl, i, eof) IN
+LoopStep(s2, L, nl, r) ==
+  IF s2.err # NoErr THEN [verdict |-> "error", st |-> s2, why |-> s2.err, more |-> FALSE, contAtEof |-> r.contAtEof]
+  ELSE IF s2.status # "parsing" THEN [verdict |-> "accepted", st |-> s2, why |-> "StopKey", more |-> FALSE, contAtEof |-> r.contAtEof]
+  ELSE IF r.eof THEN [verdict |-> "accepted", st |-> [s2 EXCEPT !.status = "end"], why |-> "EofAccept", more |-> TRUE, contAtEof |-> r.contAtEof]   \* EofAccept: no stop key needed
+  ELSE ParseLoop(s2, L, nl, r.next, r.eof)
+LoopRead(st, L, nl, r) ==
   IF r.early THEN [verdict |-> "accepted", st |-> [st EXCEPT !.status = "end"], why |-> "EarlyEof", more |-> TRUE, contAtEof |-> FALSE]
-  ELSE LET s2 == Process(st, r.line) IN
-       IF s2.err # NoErr THEN [verdict |-> "error", st |-> s2, why |-> s2.err, more |-> FALSE, contAtEof |-> r.contAtEof]
-       ELSE IF s2.status # "parsing" THEN [verdict |-> "accepted", st |-> s2, why |-> "StopKey", more |-> FALSE, contAtEof |-> r.contAtEof]
-       ELSE IF r.eof THEN [verdict |-> "accepted", st |-> [s2 EXCEPT !.status = "end"], why |-> "EofAccept", more |-> TRUE, contAtEof |-> r.contAtEof]   \* EofAccept: no stop key needed
-       ELSE ParseLoop(s2, L, nl, r.next, r.eof)
-ParseHeader(st0, L, nl) ==
-  LET r == NextMeaningful(L, nl, 1, FALSE) IN
+  ELSE With(Process(st, r.line), LAMBDA s2 : LoopStep(s2, L, nl, r))
+ParseLoop(st, L, nl, i, eof) == With(NextMeaningful(L, nl, i, eof), LAMBDA r : LoopRead(st, L, nl, r))
+FirstStep(s1, L, nl, r) ==
+  IF s1.err # NoErr THEN [verdict |-> "error", st |-> s1, why |-> s1.err, more |-> FALSE, contAtEof |-> r.contAtEof]
+  ELSE IF s1.status # "parsing"
+       THEN [verdict |-> "rejected", st |-> s1, why |-> "NoStartKey", more |-> r.phantom, contAtEof |-> r.contAtEof]   \* "required first keyword not found"
+  ELSE ParseLoop(s1, L, nl, r.next, r.eof)
+FirstRead(st0, L, nl, r) ==
   IF r.early THEN [verdict |-> "rejected", st |-> st0, why |-> "NoInput", more |-> TRUE, contAtEof |-> FALSE]
-  ELSE LET s1 == Process(st0, r.line) IN    \* FirstLineBeforeStart: the first line is processed whatever it is
-       IF s1.err # NoErr THEN [verdict |-> "error", st |-> s1, why |-> s1.err, more |-> FALSE, contAtEof |-> r.contAtEof]
-       ELSE IF s1.status # "parsing"
-            THEN [verdict |-> "rejected", st |-> s1, why |-> "NoStartKey", more |-> r.phantom, contAtEof |-> r.contAtEof]   \* "required first keyword not found"
-       ELSE ParseLoop(s1, L, nl, r.next, r.eof)
+  ELSE With(Process(st0, r.line), LAMBDA s1 : FirstStep(s1, L, nl, r))    \* FirstLineBeforeStart: the first line is processed whatever it is
+ParseHeader(st0, L, nl) == With(NextMeaningful(L, nl, 1, FALSE), LAMBDA r : FirstRead(st0, L, nl, r))
 
-NewState(km, al, vars) == [status |-> "end", km |-> km, al |-> al, vars |-> vars, err |-> NoErr]
-Entry(t, vec, var, proc) == [t |-> t, vec |-> vec, var |-> var, proc |-> proc, vals |-> <<>>]
-EnumEntry(var, proc, vals) == [t |-> "enum", vec |-> 0, var |-> var, proc |-> proc, vals |-> vals]
-KM(pairs) == [k \in {Standardise(pairs[i][1]) : i \in 1..Len(pairs)} |->
-                 pairs[CHOOSE i \in 1..Len(pairs) : Standardise(pairs[i][1]) = k /\ \A j \in (i + 1)..Len(pairs) : Standardise(pairs[j][1]) # k][2]]
 \* join physical lines into the text handed to the parser
 RECURSIVE JoinLines(_, _)
 JoinLines(L, nl) == IF Len(L) = 0 THEN "" ELSE IF Len(L) = 1 THEN L[1] \o (IF nl THEN "\n" ELSE "")
@@ -357,4 +464,148 @@ TestAlias == [k \in {"old int", "old vec"} |-> IF k = "old int" THEN "scalar int
 TestVars == [i |-> -7, s |-> "init", flag |-> FALSE, list |-> <<9>>, vec |-> <<0, 0, 0>>, vlist |-> << <<>>, <<>> >>, en |-> 0]
 TestInit == NewState(TestKM, TestAlias, TestVars)
 TestRun(L, nl) == ParseHeader(TestInit, L, nl)
+(* ------------------ the Interfile headers (part b of C17) ----------------- *)
+\* Key maps of InterfileImageHeader and InterfilePDFSHeader (InterfileHeader.cxx constructors).
+\* Variables whose value plays no role for the shape of the data are collected in `junk'.
+Ign == Entry("none", 0, "", "nothing")
+J(t) == Entry(t, 0, "junk", "set")
+NumberFormatValues == <<"bit", "ascii", "signed integer", "unsigned integer", "float">>
+CommonKeys == <<
+  <<"INTERFILE", Entry("none", 0, "", "start")>>,
+  <<"imaging modality", Entry("string", 0, "imaging_modality", "set_imaging_modality")>>,
+  <<"version of keys", Entry("string", 0, "version_of_keys", "set_version_specific_keys")>>,
+  <<"%sms-mi version number", Entry("string", 0, "junk", "set_siemens")>>,
+  <<"END OF INTERFILE", Entry("none", 0, "", "stop")>>,
+  <<"name of data file", Entry("string", 0, "data_file_name", "set")>>,
+  <<"originating system", J("string")>>,
+  <<"GENERAL DATA", Ign>>, <<"GENERAL IMAGE DATA", Ign>>,
+  <<"calibration factor", J("double")>>, <<"isotope name", J("string")>>,
+  <<"number of radionuclides", Ign>>,
+  <<"radionuclide name", Entry("string", 1, "radionuclide_name", "set")>>,
+  <<"radionuclide halflife (sec)", Entry("double", 1, "radionuclide_half_life", "set")>>,
+  <<"radionuclide branching factor", Entry("double", 1, "radionuclide_branching", "set")>>,
+  <<"study date", J("string")>>, <<"study_time", J("string")>>,
+  <<"type of data", EnumEntry("type_of_data", "set_type_of_data", TypeOfDataValues)>>,
+  <<"patient orientation", EnumEntry("patient_orientation", "set", <<"head_in", "feet_in", "other", "unknown">>)>>,
+  <<"patient rotation", EnumEntry("patient_rotation", "set", <<"supine", "prone", "right", "left", "other", "unknown">>)>>,
+  <<"imagedata byte order", EnumEntry("junk", "set", <<"LITTLEENDIAN", "BIGENDIAN">>)>>,
+  <<"data format", Ign>>,
+  <<"number format", EnumEntry("number_format", "set", NumberFormatValues)>>,
+  <<"number of bytes per pixel", Entry("int", 0, "bytes_per_pixel", "set")>>,
+  <<"number of dimensions", Entry("int", 0, "num_dimensions", "read_matrix_info")>>,
+  <<"matrix size", Entry("ilist", 1, "matrix_size", "set")>>,
+  <<"matrix axis label", Entry("string", 1, "matrix_labels", "set")>>,
+  <<"scaling factor (mm/pixel)", Entry("double", 1, "pixel_sizes", "set")>>,
+  <<"number of time frames", Entry("int", 0, "num_time_frames", "read_frames_info")>>,
+  <<"image relative start time (sec)", Entry("double", 1, "rel_start", "set")>>,
+  <<"image duration (sec)", Entry("double", 1, "durations", "set")>>,
+  <<"maximum pixel count", Ign>>, <<"minimum pixel count", Ign>>,
+  <<"image scaling factor", Entry("dlist", 1, "image_scaling_factors", "set")>>,
+  <<"quantification units", Entry("double", 0, "junk", "set_unmodelled")>>,
+  <<"number of energy windows", Entry("int", 0, "num_energy_windows", "read_num_energy_windows")>>,
+  <<"energy window lower level", Entry("double", 1, "en_low", "set")>>,
+  <<"energy window upper level", Entry("double", 1, "en_up", "set")>>,
+  <<"start horizontal bed position (mm)", J("double")>>, <<"start vertical bed position (mm)", J("double")>> >>
+CommonVars == [junk |-> 0, unmodelled |-> FALSE, imaging_modality |-> "", version_of_keys |-> "", data_file_name |-> "",
+               radionuclide_name |-> <<"">>, radionuclide_half_life |-> <<"D">>, radionuclide_branching |-> <<"D">>,
+               type_of_data |-> 5, patient_orientation |-> 3, patient_rotation |-> 5, number_format |-> 3, bytes_per_pixel |-> -1,
+               num_dimensions |-> 2, matrix_size |-> << <<>>, <<>> >>, matrix_labels |-> <<"", "">>, pixel_sizes |-> <<"D", "D">>,
+               num_time_frames |-> 1, num_image_data_types |-> 1, rel_start |-> <<>>, durations |-> <<>>,
+               image_scaling_factors |-> << <<"D">> >>, num_energy_windows |-> 1, en_low |-> <<"D">>, en_up |-> <<"D">>,
+               PET_data_type |-> 5, data_offset |-> << [big |-> FALSE, n |-> 0] >>]
+ImageKM == KM(CommonKeys \o <<
+  <<"first pixel offset (mm)", Entry("double", 1, "first_pixel_offsets", "set")>>,
+  <<"number of image data types", Entry("int", 0, "num_image_data_types", "read_image_data_types")>>,
+  <<"index nesting level", J("slist")>>,
+  <<"image data type description", Entry("string", 1, "image_data_type_description", "set")>> >>)
+Merge(f, g) == [k \in DOMAIN f \cup DOMAIN g |-> IF k \in DOMAIN g THEN g[k] ELSE f[k]]
+NoAlias == [k \in {} |-> ""]
+ImageInit == NewState(ImageKM, NoAlias, Merge(CommonVars, [first_pixel_offsets |-> <<>>, image_data_type_description |-> <<"">>]))
+PDFSKM == KM(CommonKeys \o <<
+  <<"minimum ring difference per segment", Entry("ilist", 0, "min_ring_difference", "resize_segments_and_set")>>,
+  <<"maximum ring difference per segment", Entry("ilist", 0, "max_ring_difference", "resize_segments_and_set")>>,
+  <<"TOF mashing factor", J("int")>>,
+  <<"Scanner parameters", Ign>>, <<"Scanner type", Ign>>,
+  <<"number of rings", J("int")>>, <<"number of detectors per ring", J("int")>>,
+  <<"transaxial FOV diameter (cm)", J("double")>>, <<"inner ring diameter (cm)", J("double")>>,
+  <<"average depth of interaction (cm)", J("double")>>, <<"distance between rings (cm)", J("double")>>,
+  <<"default bin size (cm)", J("double")>>, <<"view offset (degrees)", J("double")>>,
+  <<"Maximum number of non-arc-corrected bins", J("int")>>, <<"Default number of arc-corrected bins", J("int")>>,
+  <<"number of blocks_per_bucket in axial direction", J("int")>>, <<"number of blocks_per_bucket in transaxial direction", J("int")>>,
+  <<"number of crystals_per_block in axial direction", J("int")>>, <<"number of crystals_per_block in transaxial direction", J("int")>>,
+  <<"number of crystals_per_singles_unit in axial direction", J("int")>>, <<"number of crystals_per_singles_unit in transaxial direction", J("int")>>,
+  <<"number of detector layers", J("int")>>, <<"Energy resolution", J("double")>>, <<"Reference energy (in keV)", J("double")>>,
+  <<"Maximum number of (unmashed) TOF time bins", J("int")>>,
+  <<"TOF bin order", Entry("ilist", 0, "timing_poss_sequence", "set")>>,
+  <<"Size of unmashed TOF time bins (ps)", J("double")>>, <<"TOF timing resolution (ps)", J("double")>>,
+  <<"Scanner geometry (BlocksOnCylindrical/Cylindrical/Generic)", J("string")>>,
+  <<"distance between crystals in axial direction (cm)", J("double")>>, <<"distance between crystals in transaxial direction (cm)", J("double")>>,
+  <<"distance between blocks in axial direction (cm)", J("double")>>, <<"distance between blocks in transaxial direction (cm)", J("double")>>,
+  <<"Name of crystal map", J("string")>>, <<"end scanner parameters", Ign>>,
+  <<"effective central bin size (cm)", J("double")>>, <<"applied corrections", J("slist")>> >>)
+PDFSAlias == LET pairs == << <<"%TOF mashing factor", "TOF mashing factor">>, <<"Number of TOF time bins", "Maximum number of (unmashed) TOF time bins">>,
+                             <<"Size of timing bin (ps)", "Size of unmashed TOF time bins (ps)">>, <<"timing resolution (ps)", "TOF timing resolution (ps)">> >> IN
+             [k \in {Standardise(pairs[i][1]) : i \in 1..Len(pairs)} |-> Standardise(pairs[CHOOSE i \in 1..Len(pairs) : Standardise(pairs[i][1]) = k][2])]
+PDFSInit == NewState(PDFSKM, PDFSAlias, Merge(CommonVars, [min_ring_difference |-> <<>>, max_ring_difference |-> <<>>, num_rings_per_segment |-> <<>>,
+                                                           timing_poss_sequence |-> <<>>, num_segments |-> -1, num_views |-> 0, num_bins |-> 0,
+                                                           num_timing_poss |-> 1, order_found |-> FALSE]))
+
+\* InterfileHeader::post_processing: the consistency checks every Interfile header must pass
+HdrPostOk(v) ==
+  /\ v.patient_orientation >= 0 /\ v.patient_rotation >= 0
+  /\ v.number_format >= 0
+  /\ (v.number_format # 0 => v.bytes_per_pixel > 0)            \* "'number of bytes per pixel' keyword should be set to a number > 0"
+  /\ Len(v.matrix_size) > 0                                     \* "no matrix size keywords present"
+  /\ \A d \in 1..Len(v.matrix_size) : /\ Len(v.matrix_size[d]) > 0     \* "dimension of 'matrix size' not present"
+                                      /\ \A i \in 1..Len(v.matrix_size[d]) : v.matrix_size[d][i] > 0
+  /\ \A f \in 1..Len(v.image_scaling_factors) :                 \* "wrong number of image scaling factors"
+       Len(v.image_scaling_factors[f]) = 1 \/ Len(v.image_scaling_factors[f]) = v.matrix_size[Len(v.matrix_size)][1]
+TypeValid(nf, bpp) == (nf \in {2, 3} /\ bpp \in {1, 2, 4, 8}) \/ (nf = 4 /\ bpp \in {4, 8})
+\* x * y * z * t elements of bpp bytes starting at offset fit into a file of len bytes (no overflow: by division)
+Fits4(x, y, z, t, bpp, offset, len) ==
+  /\ x > 0 /\ y > 0 /\ z > 0 /\ t > 0 /\ bpp > 0 /\ offset >= 0 /\ offset <= len
+  /\ z <= ((((len - offset) \div bpp) \div x) \div y) \div t
+RECURSIVE SumSeq(_)
+SumSeq(q) == IF Len(q) = 0 THEN 0 ELSE (IF q[1] > 1000000 THEN 1000000 ELSE q[1]) + SumSeq(Tail(q))
+
+\* What the image readers must do with a header (cfg: name and length of the data file that exists):
+\* [k |-> "accept", x, y, z] | [k |-> "reject"] | [k |-> "any"] (outside the modelled part: anything but a crash)
+ImageJudge(r, cfg) ==
+  LET v == r.st.vars IN
+  IF r.verdict # "accepted" THEN [k |-> "reject", why |-> r.why]
+  ELSE IF v.unmodelled THEN [k |-> "any", why |-> "unmodelled"]
+  ELSE IF ~HdrPostOk(v) THEN [k |-> "reject", why |-> "post_processing"]
+  ELSE IF v.PET_data_type # 5 THEN [k |-> "reject", why |-> "expecting an image"]       \* also -1: a value outside the list
+  ELSE IF v.num_dimensions # 3 THEN [k |-> "reject", why |-> "expecting 3D image"]
+  ELSE IF \E d \in 1..3 : Len(v.matrix_size[d]) # 1 THEN [k |-> "reject", why |-> "homogeneous dimensions"]
+  ELSE IF v.matrix_labels[1] # "" /\ v.matrix_labels # <<"x", "y", "z">> THEN [k |-> "reject", why |-> "x,y,z order"]
+  ELSE IF v.data_file_name # cfg.datafile THEN [k |-> "reject", why |-> "data file"]
+  ELSE IF Len(v.data_offset) < 1 \/ Len(v.image_scaling_factors) < 1 THEN [k |-> "reject", why |-> "no dataset"]
+  ELSE IF ~TypeValid(v.number_format, v.bytes_per_pixel) THEN [k |-> "reject", why |-> "number type"]
+  ELSE IF v.data_offset[1].big THEN [k |-> "reject", why |-> "offset"]
+  ELSE IF ~Fits4(v.matrix_size[1][1], v.matrix_size[2][1], v.matrix_size[3][1], 1, v.bytes_per_pixel, v.data_offset[1].n, cfg.datalen)
+       THEN [k |-> "reject", why |-> "data file too short"]                               \* "data whose size contradicts the header"
+  ELSE [k |-> "accept", why |-> "", x |-> v.matrix_size[1][1], y |-> v.matrix_size[2][1], z |-> v.matrix_size[3][1]]
+
+\* Projection data: the scanner / ProjDataInfo consistency checks are not modelled, so a header that
+\* passes the modelled checks MAY be accepted; if it is, the object must have the shape the header announces.
+ImageExpected(L, nl, cfg) == With(ParseHeader(ImageInit, L, nl), LAMBDA r : ImageJudge(r, cfg))
+PDFSJudge(r, cfg) ==
+  LET v == r.st.vars IN
+  IF r.verdict # "accepted" THEN [k |-> "reject", why |-> r.why]
+  ELSE IF v.unmodelled THEN [k |-> "any", why |-> "unmodelled"]
+  ELSE IF ~HdrPostOk(v) THEN [k |-> "reject", why |-> "post_processing"]
+  ELSE IF v.PET_data_type # 0 THEN [k |-> "reject", why |-> "expecting emission data"]
+  ELSE IF Len(v.min_ring_difference) # v.num_segments \/ Len(v.max_ring_difference) # v.num_segments \/ Len(v.num_rings_per_segment) # v.num_segments
+       THEN [k |-> "reject", why |-> "per-segment information is inconsistent"]
+  ELSE IF ~\E i \in 1..v.num_segments : v.min_ring_difference[i] + v.max_ring_difference[i] = 0 THEN [k |-> "reject", why |-> "no segment 0"]
+  ELSE IF Len(v.timing_poss_sequence) > 0 /\ Len(v.timing_poss_sequence) # v.num_timing_poss THEN [k |-> "reject", why |-> "TOF bin order"]
+  ELSE IF v.data_file_name # cfg.datafile THEN [k |-> "reject", why |-> "data file"]
+  ELSE [k |-> "may", why |-> "", segs |-> v.num_segments, views |-> v.num_views, bins |-> v.num_bins, axial |-> v.num_rings_per_segment,
+        tof |-> v.num_timing_poss,
+        fits |-> /\ Len(v.data_offset) >= 1 /\ ~v.data_offset[1].big /\ TypeValid(v.number_format, v.bytes_per_pixel)
+                 /\ Fits4(v.num_bins, v.num_views, SumSeq(v.num_rings_per_segment), v.num_timing_poss, v.bytes_per_pixel, v.data_offset[1].n, cfg.datalen)]
+PDFSExpected(L, nl, cfg) == With(ParseHeader(PDFSInit, L, nl), LAMBDA r : PDFSJudge(r, cfg))
+\* the part of the final variables that determines what a reader does (everything but `junk')
+Relevant(v) == [k \in DOMAIN v \ {"junk"} |-> v[k]]
 =============================================================================
